@@ -362,6 +362,8 @@ impl HttpServer {
             Err(e) if e.raw_os_error() == Some(libc::EINTR) => 0,
             Err(e) => return Err(ServerError::IOError(e)),
         };
+        #[cfg(micro_http_verif)]
+        crate::verif::arrange(&mut events[..event_count]);
 
         // Getting the file descriptor for kill switch.
         // If there is no kill switch fd, we use value -1 as an invalid fd.
@@ -656,6 +658,43 @@ impl HttpServer {
                 epoll::EpollEvent::new(epoll::EventSet::IN, stream_fd as u64),
             )
             .map_err(ServerError::IOError)
+    }
+}
+
+#[cfg(micro_http_verif)]
+impl HttpServer {
+    /// Verification hook: one entry per connection, sorted by descriptor number:
+    /// `(descriptor, state (0 incoming / 1 outgoing / 2 closed), in-flight count,
+    /// connection digest)`. Used by the external harness for state de-duplication and
+    /// coverage counts only.
+    pub fn verif_connections(&self) -> Vec<(RawFd, u8, u32, Vec<u8>)> {
+        let mut table: Vec<(RawFd, u8, u32, Vec<u8>)> = self
+            .connections
+            .iter()
+            .map(|(fd, c)| {
+                (
+                    *fd,
+                    match c.state {
+                        ClientConnectionState::AwaitingIncoming => 0,
+                        ClientConnectionState::AwaitingOutgoing => 1,
+                        ClientConnectionState::Closed => 2,
+                    },
+                    c.in_flight_response_count,
+                    c.connection.verif_digest(),
+                )
+            })
+            .collect();
+        table.sort();
+        table
+    }
+
+    /// Verification hook: `(listener descriptor, kill switch descriptor or -1, payload limit)`.
+    pub fn verif_globals(&self) -> (RawFd, RawFd, usize) {
+        (
+            self.socket.as_raw_fd(),
+            self.kill_switch.as_ref().map_or(-1, |ks| ks.as_raw_fd()),
+            self.payload_max_size,
+        )
     }
 }
 
